@@ -35,3 +35,4 @@ def run(ctx):
     ctx.run("C08.SEED", "R-WHO", c08.seed)
     ctx.run("C08.MEMO", "R-ORDER", c08.memo)
     ctx.run("C08.FEED-TOTAL", "R-FLOW", c08.feed_total)
+    ctx.run("C12.GETSTATE", "R-WHO", mem.getstate_pure)
